@@ -21,7 +21,7 @@ from sim.world import Session, classify, exc_detail, exc_signature, reference_wo
 PROPERTY = "C10"
 SESSIONS = {"quick": 200, "thorough": 5000}
 BUDGET_S = {"quick": 80, "thorough": 1500}
-CAP_S = {"quick": 90, "thorough": 240}
+CAP_S = {"quick": 240, "thorough": 480}
 RULE = ("one session = one generated recipe containing knob-bearing ops (reductions, groupby, merge, sort/set_index, shuffle, "
         "drop_duplicates/unique/value_counts) x K drawn knob vectors (split_every, split_out, shuffle_method keyword and config, "
         "max_branch, broadcast, npartitions hints, upsample, fuse) with partition counts on both sides of the selection thresholds; "
